@@ -90,7 +90,7 @@ impl GenCfg {
             undefined_label: r.chance(1, 25),
             duplicate_label: r.chance(1, 30),
             parse_errors: r.chance(1, 8),
-            boundary_imm: r.chance(1, 10),
+            boundary_imm: r.chance(1, 8),
             code_after_exit: r.chance(1, 4),
             recursion: r.chance(1, 4),
             irreducible: r.chance(1, 4),
@@ -292,6 +292,24 @@ impl Gen<'_> {
             self.emit(format!("addi {0}, {0}, {k}", self.reg("sp")));
             return;
         }
+        if self.cfg.boundary_imm && self.r.chance(1, 5) {
+            // an operation both of whose operands are known corner values: the analyzer folds it
+            const CORNERS: [&str; 12] = ["0x80000000", "-1", "0", "1", "0x7fffffff", "-2147483648", "31", "32", "33", "0xffffffff", "-2", "2"];
+            const OPS: [&str; 13] = ["add", "sub", "mul", "div", "rem", "sll", "srl", "sra", "slt", "sltu", "and", "or", "xor"];
+            let (x, y) = (*self.r.pick(&CORNERS), *self.r.pick(&CORNERS));
+            let op = *self.r.pick(&OPS);
+            let d = self.dst(ctx);
+            let d = self.reg(d);
+            self.emit(format!("li {}, {x}", self.reg("t0")));
+            self.emit(format!("li {}, {y}", self.reg("t1")));
+            self.emit(format!("{op} {d}, {}, {}", self.reg("t0"), self.reg("t1")));
+            for r in ["t0", "t1"] {
+                if !ctx.defined.contains(&r) {
+                    ctx.defined.push(r);
+                }
+            }
+            return;
+        }
         let a = self.src(ctx);
         let b = self.src(ctx);
         let d = self.dst(ctx);
@@ -329,6 +347,20 @@ impl Gen<'_> {
             let reg = self.reg(reg);
             let op = *self.r.pick(&["sw", "lw", "sb", "lb"]);
             self.emit(format!("{op} {reg}, {off}({})", self.reg("sp")));
+            return;
+        }
+        if self.r.chance(1, 12) {
+            // the operand form without a base register: `lw rd, imm` (an absolute address)
+            let off = 4 * self.r.range(0, 64);
+            if self.r.chance(1, 2) {
+                let d = self.dst(ctx);
+                let d = self.reg(d);
+                self.emit(format!("lw {d}, {off}"));
+            } else {
+                let s = self.src(ctx);
+                let s = self.reg(s);
+                self.emit(format!("sw {s}, {off}"));
+            }
             return;
         }
         if ctx.frame > 0 && self.r.chance(2, 3) {
@@ -843,6 +875,35 @@ impl Gen<'_> {
             self.emit("beqz a0, nowhere_defined".into());
         }
         self.exit();
+        if cfg.code_after_exit && self.r.chance(1, 2) {
+            // dead code after the exit: a few blocks that jump among themselves in no particular
+            // structure (loops entered from nowhere, blocks placed before the jump that enters them)
+            let n = 3 + self.r.usize(4);
+            let labels: Vec<String> = (0..n).map(|_| self.fresh("dead")).collect();
+            for k in 0..n {
+                self.emit_label(&labels[k].clone());
+                match self.r.below(3) {
+                    0 => {
+                        let v = self.r.range(0, 3);
+                        let d = *self.r.pick(&["t1", "a7", "t0"]);
+                        self.emit(format!("li {}, {v}", self.reg(d)));
+                    }
+                    1 => self.arith(&mut mctx),
+                    _ => {}
+                }
+                let t = self.r.pick(&labels).clone();
+                match self.r.below(3) {
+                    0 => {
+                        let c = self.cond(&mctx, &t);
+                        self.emit(c);
+                    }
+                    1 => self.emit(format!("j {t}")),
+                    _ => {}
+                }
+            }
+            let t = self.r.pick(&labels).clone();
+            self.emit(format!("j {t}"));
+        }
         if cfg.code_after_exit {
             // dead code after the exit, possibly the only caller of the last function
             self.arith(&mut mctx);
